@@ -60,6 +60,6 @@ META = {'design_ref': 'DESIGN.md section 7 / C11',
                'every configuration, resolver kind and event history (premises only ok_cfg and Forall ok_event). On the implementation the same statements are '
                'judged on every generated history (hostile profile: valid packets in illegal states, adversarial / duplicate / wrong-type acks, structurally '
                'mutated packets, garbage, data while a write is pending, timers at every step, Duration::MAX-like timeouts) by mon_no_panic / mon_close_clean '
-               '/ mon_error_absorbing / mon_c11_honest_decode (1104, the converse clause: while no call has failed on a connection and the reference framing decoder - the model decoder proved in Properties/C03 - accepts the bytes read so far, the engine never answers a read with DecodingFailure); they found D6, D9, D10, D14 on the original code (all fixed).',
+               '/ mon_error_absorbing / mon_c11_honest_decode (theorems C11_open_fresh_decoder / C11_open_failed_halts: every successful open installs a fresh framing decoder, a failed open halts; monitor 1104, the converse clause: while no call has failed on a connection and the reference framing decoder - the model decoder proved in Properties/C03 - accepts the bytes read so far, the engine never answers a read with DecodingFailure); they found D6, D9, D10, D14 on the original code (all fixed).',
  'technique': 'machine-checked proof in Coq over the engine model + lock-step correspondence of the extracted model with the implementation + extracted '
               'monitors on the implementation trace'}
